@@ -293,3 +293,90 @@ def install_file_info_stub(eng, state):
     eng.overrides[(PZ, "SevenZipFile._make_file_info")] = mk
     # symlink members store the link target text: Worker._find_link_target touches the filesystem
     eng.overrides[(PZ, "Worker._find_link_target")] = lambda eng, worker, target: "target/of/" + target.name
+
+
+# ===================================================================================== read side
+class LayoutFile(Native):
+    """archive file for read sessions: [0,32) signature header bytes | packed area of symbolic length | header items.
+    Reads inside byte regions are exact; a read in the packed area returns an opaque blob.  Records every write."""
+
+    isa = (io.IOBase,)
+
+    def __init__(self, eng, sig_items, data_len, hdr_items, hdr_gap=0, name=None):
+        self.sig, self.data_len, self.hdr = list(sig_items), data_len, list(hdr_items)
+        self.hdr_start = eng.binop(ast.Add(), eng.binop(ast.Add(), 32, data_len), hdr_gap)
+        self.pos = 0
+        self.writes = []
+        self.reads = []
+        self.name = name
+        self.mode = "rb"
+
+    def get_name(self, eng):
+        if self.name is None:
+            raise ModelRaise("AttributeError", ["name"], cls=AttributeError)
+        return self.name
+
+    def seek(self, eng, off, whence=0):
+        if whence == 0:
+            self.pos = off
+        elif whence == 1:
+            self.pos = eng.binop(ast.Add(), self.pos, off)
+        else:
+            raise ModelRaise("Unsupported seek from end")
+        return self.pos
+
+    def tell(self, eng):
+        return self.pos
+
+    def read(self, eng, n=None):
+        p = self.pos
+        if not is_sym(p) and p < 32:
+            if n is None or is_sym(n):
+                raise ModelRaise("Unsupported symbolic read in the signature header")
+            r = self.sig[p:p + n]
+            self.pos = p + len(r)
+            return SBytes(r)
+        if eng.branch(eng.compare(ast.Eq(), p, self.hdr_start)):
+            total = tokens.byte_len(eng, self.hdr)
+            if n is None or eng.branch(eng.compare(ast.GtE(), n, total)):
+                self.pos = eng.binop(ast.Add(), p, total)
+                return SBytes(self.hdr)
+            raise ModelRaise("Unsupported partial header read")
+        # packed area (or beyond the end of file: short read)
+        self.reads.append((p, n))
+        self.pos = eng.binop(ast.Add(), p, n)
+        return Blob(n, ("packed", p))
+
+    def write(self, eng, data):
+        self.writes.append((self.pos, data))
+        return 0
+
+    def close(self, eng):
+        return None
+
+
+def sig_header_items(eng, nho, nhs, hdr_items):
+    """a valid 32-byte signature header for (offset, size, crc(header))"""
+    from vf.pysym.models import crc_term, to_bytes
+
+    tail = list(to_bytes(eng, nho, 8).items) + list(to_bytes(eng, nhs, 8).items)
+    hc = crc_term(eng, CrcVal(hdr_items))
+    tail += list(to_bytes(eng, hc, 4).items)
+    sc = crc_term(eng, CrcVal(tail))
+    return list(b"7z\xbc\xaf\x27\x1c\x00\x04") + list(to_bytes(eng, sc, 4).items) + tail
+
+
+def open_for_read(eng, hdr_items, data_len, password=None, name=None, mp=False):
+    """a SevenZipFile in mode 'r' produced by the real _real_get_contents + Worker construction on a LayoutFile"""
+    total = tokens.byte_len(eng, hdr_items)
+    sig = sig_header_items(eng, data_len, total, hdr_items)
+    fp = LayoutFile(eng, sig, data_len, hdr_items, name=name)
+    szf = SObj(eng.cls(PZ, "SevenZipFile"))
+    szf.attrs.update(fp=fp, mode="r", _filePassed=name is None, filename=name, dereference=False, mp=mp,
+                     encoded_header_mode=True, header_encryption=False, password_protected=password is not None,
+                     _block_size=1048576, reporterd=None, q=Queue())
+    eng.method(szf, "_real_get_contents", password)
+    fp.seek(eng, szf.attrs["afterheader"])
+    worker = eng.new(eng.cls(PZ, "Worker"), szf.attrs["files"], szf.attrs["afterheader"], szf.attrs["header"], mp)
+    szf.attrs["worker"] = worker
+    return szf, fp
